@@ -50,8 +50,22 @@ func init() {
 			nh, np, nrep = 6000, 120, 5000
 		}
 		pool := callPool(r, np)
-		alone := CaseSet{Name: "calls-alone", Cases: pool}
 		hist := CaseSet{Name: "histories"}
+		// Encode of Files that differ in exactly one late struct field of one message, one after another
+		twins := twinEncodeCalls(r, 1)
+		if thorough {
+			twins = append(twins, twinEncodeCalls(r, 3)...)
+		}
+		for _, set := range twins {
+			pool = append(pool, set...)
+			fwd := append([]string{}, set...)
+			rev := make([]string, len(set))
+			for i, c := range set {
+				rev[len(set)-1-i] = c
+			}
+			hist.Cases = append(hist.Cases, "hist "+strings.Join(fwd, "^"), "hist "+strings.Join(rev, "^"))
+		}
+		alone := CaseSet{Name: "calls-alone", Cases: pool}
 		for i := 0; i < nh; i++ {
 			k := 5 + r.intn(36)
 			calls := make([]string, k)
@@ -71,7 +85,7 @@ func init() {
 			rep.Cases = append(rep.Cases, fmt.Sprintf("encrep 8 %d %s", i%2, txt))
 		}
 		return []CaseSet{alone, hist, rep},
-			"random histories of 5-40 calls (Decode with option sets, DecodeChained, CheckIntegrity, DecodeHeaderAndFileID, Encode in both byte orders) over a pool of inputs incl. component-bearing files and timestamp sequences that use the time reference before setting it, every call also made alone with fresh package state and, for a sample, first in a fresh process; every Encode repeated 8 times on deeply equal Files. Oracles: each result in a history equals the model threading the package-level accumulators, equals the call alone except on the accumulated fields named in known_findings.txt, identical bytes for identical Files; static fact: the set of package-level variables written on the decode/encode paths", false
+			"random histories of 5-40 calls (Decode with option sets, DecodeChained, CheckIntegrity, DecodeHeaderAndFileID, Encode in both byte orders) over a pool of inputs incl. component-bearing files and timestamp sequences that use the time reference before setting it, every call also made alone with fresh package state and, for a sample, first in a fresh process; every Encode repeated 8 times on deeply equal Files; for every message type with 20 or more struct fields, Files holding one message that differ in exactly one late struct field (indices 16 … 90 and the last two) encoded one after another in both orders. Oracles: each result in a history equals the model threading the package-level accumulators, equals the call alone except on the accumulated fields named in known_findings.txt, identical bytes for identical Files; static fact: the set of package-level variables written on the decode/encode paths", false
 	}
 	propPost["C08"] = postC08
 }
